@@ -448,6 +448,12 @@ begin
     select true from accounts where ledger = _ledger and address = posting ->> 'source' into _source_exists;
     select true from accounts where ledger = _ledger and address = posting ->> 'destination' into _destination_exists;
 
+    -- a posting from an account to itself: by the time the destination move is written the account exists and
+    -- already carries the source move, whose volumes the destination move has to start from
+    if posting ->> 'source' = posting ->> 'destination' then
+        _destination_exists = true;
+    end if;
+
     perform upsert_account(_ledger, posting ->> 'source', _account_metadata -> (posting ->> 'source'), _insertion_date);
     perform upsert_account(_ledger, posting ->> 'destination', _account_metadata -> (posting ->> 'destination'),
                            _insertion_date);
